@@ -21,6 +21,7 @@ def main():
     prop, wt, sid = sys.argv[1:4]
     needs = sys.argv[sys.argv.index("--needs") + 1] if "--needs" in sys.argv else ""
     desc = sys.argv[sys.argv.index("--desc") + 1] if "--desc" in sys.argv else ""
+    rnd = int(sys.argv[sys.argv.index("--round") + 1]) if "--round" in sys.argv else 2
     rc, patch = sh("git diff", cwd=wt)
     if not patch.strip():
         print("no diff in", wt); return 1
@@ -65,12 +66,16 @@ def main():
         meta["checks_errors"] = errors
         meta["detected_by_target_property"] = prop in fired
         meta["detected_by_any"] = bool(fired)
+        meta["round"] = rnd
+        meta["detected_at_intake"] = prop in fired
+        meta["checks_fired_at_intake"] = fired
         meta["check_wall_s"] = round(time.time() - t0, 1)
     finally:
         subprocess.call(["git", "-C", "/repo", "worktree", "remove", "--force", scratch])
         shutil.rmtree(scratch, ignore_errors=True)
     json.dump(meta, open(os.path.join(out, "meta.json"), "w"), indent=1)
-    print(json.dumps({k: meta[k] for k in ("seed", "confirmed", "detected_by_target_property", "checks_fired", "checks_errors")}, indent=1))
+    short = {p: [v[0]] + ([f"... +{len(v) - 1}"] if len(v) > 1 else []) for p, v in meta.get("checks_fired", {}).items()}
+    print(json.dumps({"seed": sid, "confirmed": meta.get("confirmed"), "target": meta.get("detected_by_target_property"), "fired": short, "errors": {k: v[0][:120] for k, v in meta.get("checks_errors", {}).items()}, "ran": [r.get("summary") or (r["exit"], r["tail"][-80:]) for r in meta["ran"]]}, indent=1))
     return 0
 
 
